@@ -199,13 +199,13 @@ def check_rank_loop(rep, r, e, name, arity, rule, cfg):
               want='%s .. %s %s' % w, construct='%s ranks %s..%s %s' % (name, first, last, order), loc=e.loc)
 
 
-def check_rank_lists(rep, repo):
+def check_rank_lists(rep, repo, rule='C03.R4'):
     f = repo.method('Model', 'set_rank_lists')
     it = Interp(repo)
     try:
         effs, _ = it.run(f, {}, selfterm=lp.MODEL)
     except Unknown as u:
-        rep.inconclusive('C03.R4', f.where, 'set_rank_lists is inside the interpreted fragment', got=str(u))
+        rep.inconclusive(rule, f.where, 'set_rank_lists is inside the interpreted fragment', got=str(u))
         return
     # size: range(<max rank>) where max rank is a max-fold of rank_student over all pairs starting at 0
     inits = [e for e, c in iter_effects(effs) if e.kind == 'store' and e.target == A(lp.MODEL, 'rank_lists')]
@@ -215,16 +215,16 @@ def check_rank_lists(rep, repo):
         if dom[0] == 'call' and dom[1] == S('range') and len(dom[2]) == 1:
             size = dom[2][0]
     ok = size is not None and is_max_rank_fold(size)
-    rep.check(ok, 'C03.R4', f.where, 'rank_lists has one slot per rank up to the maximum student rank', got=show(size)[:200] if size is not None else 'no initialiser',
+    rep.check(ok, rule, f.where, 'rank_lists has one slot per rank up to the maximum student rank', got=show(size)[:200] if size is not None else 'no initialiser',
               want='max over all pairs of rank_student (0 if none)', construct='rank_lists size')
-    check_scatter(rep, 'C03.R4', f, effs, 'rank_lists', '_get_max_rank()', 'rank_student', 1, sizeterm=size)
+    check_scatter(rep, rule, f, effs, 'rank_lists', '_get_max_rank()', 'rank_student', 1, sizeterm=size)
     # users index with r - 1
     for crit in ('GENEROUS', 'GREEDY'):
         r = lpfacts.get_run(repo, False, False, [lpfacts.crit_config(crit, 0)])
         for e in r.of('addc'):
             if e.fam is not None and e.iters and any(q.startswith('r:') for q in e.fam.quants) and lpfacts.is_freeze(e.fam) is None:
                 preds = [p for m in e.fam.monos for p in m.preds]
-                rep.check('r - rs(q) == 0' in preds, 'C03.R4', e.where, '%s reads the pairs of rank r from slot r-1' % crit, got=preds, want='rs(q) == r',
+                rep.check('r - rs(q) == 0' in preds, rule, e.where, '%s reads the pairs of rank r from slot r-1' % crit, got=preds, want='rs(q) == r',
                           construct='%s rank slot %s' % (crit, preds), loc=e.loc)
 
 
